@@ -129,14 +129,20 @@ SHAPE = 'Or(And(_primes.len == 54, _primes[53] == 251), _pos == _primes.len - 1)
 fn(G + 'next_prime', TU, serves=['C15', 'C05'], extra_env=ENV, assigns=['this._primes', 'this._pos'], nowrap=True,
    requires=['gen_ok(this)', SHAPE, 'n <= U32 - 5'],
    ensures=[('invariant', 'gen_ok(this)'), ('value', 'result == _primes[_pos]'), ('at_least', 'result >= n'),
-            ('least_listed', 'forall(lambda i: Implies(And(0 <= i, i < _pos, i >= old._pos), _primes[i] < n))')],
-   loops={1: {'inv': [('gen', 'gen_ok(this)'), ('shape', SHAPE), ('pos', '_pos >= old._pos'),
+            ('least_listed', 'forall(lambda i: Implies(And(0 <= i, i < _pos, i >= old._pos), _primes[i] < n))'),
+            ('prefix', 'prefix_kept(this, old.this)')],
+   loops={1: {'inv': [('gen', 'gen_ok(this)'), ('shape', SHAPE), ('pos', '_pos >= old._pos'), ('prefix', 'prefix_kept(this, old.this)'),
                       ('below', 'forall(lambda i: Implies(And(0 <= i, i < _pos, i >= old._pos), _primes[i] < n))')],
               'dec': 'n - _primes[_pos]'}})
 
 fn('dsplib::nextprime', TU, serves=['C15', 'C05'], extra_env=ENV, pure=True,
    requires=[('representable', 'n <= U32 - 5')],
-   ensures=[('at_least', 'result >= n'), ('at_least_two', 'result >= 2')])
+   ensures=[('at_least', 'result >= n'), ('at_least_two', 'result >= 2'),
+            # up to the end of the built-in table the answer is exactly the smallest prime >= n (a prime maps to itself)
+            ('table_exact', 'Implies(n <= 251, And(Or(%s), %s))' % (', '.join('result == %d' % v for v in PRIMES54),
+                                                                    ', '.join('Implies(%d >= n, result <= %d)' % (v, v) for v in PRIMES54))),
+            # above it: the first entry of the generator's strictly increasing list that is not below n
+            ('local:first_listed', 'exists_w(lambda L, pos: And(0 <= pos, pos < L.len, result == L[pos], forall(lambda i: Implies(And(0 <= i, i < pos), L[i] < n))), gen._primes, gen._pos)')])
 
 fn('dsplib::primes', TU, serves=['C15', 'C05'], extra_env=ENV, pure=True, nowrap=True,
    requires=[('representable', 'n <= INT_MAX - 4')],
